@@ -408,6 +408,10 @@ func (Encoder) AppendObjectData(dst []byte, o []byte) []byte {
 	//    to separate with existing content OR
 	// 3. existing content has already other fields
 	if o[0] == '{' {
+		if len(o) == 1 {
+			// An object without fields adds nothing, not even a separator.
+			return dst
+		}
 		if len(dst) > 1 {
 			dst = append(dst, ',')
 		}
